@@ -281,7 +281,35 @@ def cast_matrix():
         # boolean source
         progs.append((f"boolsrc|{t1}", f"{{ {t1} a = (RsV > RtV); RyyV = (int64_t) a; }}"))
         progs.append((f"boolcast|{t1}", f"{{ RyyV = (int64_t)(({t1})(RsV == RtV)); }}"))
+        progs.append((f"boolasg|{t1}", f"{{ {t1} a; a = (RsV <= RtV) && (RsV != 5); RyyV = (int64_t) a; ReV = sizeof(a); }}"))
+        progs.append((f"boolnot|{t1}", f"{{ {t1} a = !RsV; {t1} b = (RsV || RtV); RyyV = (int64_t) a + b; }}"))
+    # boolean source in the narrowing contexts: store widths, predicate write, narrow parameters
+    for n in (8, 16, 32, 64):
+        progs.append((f"boolstore{n}", f"{{ mem_store_u{n}(RtV, (RsV > RtV)); mem_store_u{n}((RtV + 16), !RsV); mem_store_u{n}((RtV + 32), (RsV && RtV)); }}"))
+    progs.append(("boolpred", "{ PeV = (RsV > RtV); }"))
+    progs.append(("boolpred2", "{ PeV = !RsV; RddV = PeV; }"))
+    progs.append(("boolarg16", "{ ReV = revbit16((RsV > RtV)); RddV = revbit16(!RtV); }"))
+    progs.append(("boolarg64", "{ RddV = clz64((RsV > RtV)); ReV = clz32((RsV == RtV)); }"))
+    progs.append(("boolreg", "{ ReV = (RsV > RtV); RddV = (RsV < RtV); RxV = !RxV; }"))
     return progs
+
+
+def cast_exports(name):
+    """exported locals (name, type) of a cast_matrix / chained_assignments program: their final value AND width are compared"""
+    parts = name.split("|")
+    if parts[0] in ("init", "assign") and len(parts) == 3:
+        return [("a", parts[1]), ("b", parts[2])]
+    if parts[0] in ("cast", "wreg32", "wreg64", "wpred", "boolsrc", "boolasg") or parts[0].startswith("store"):
+        return [("a", parts[1])] if len(parts) > 1 and parts[1] in TW else []
+    if parts[0] == "boolnot":
+        return [("a", parts[1]), ("b", parts[1])]
+    if parts[0] == "chainasg":
+        return [("a", parts[1]), ("b", parts[2]), ("c", parts[3])]
+    if parts[0] == "chain4":
+        return [("a", parts[1]), ("b", parts[2]), ("c", parts[3]), ("d", parts[4])]
+    if parts[0] == "chainreg":
+        return [("a", parts[1]), ("b", parts[2])]
+    return []
 
 
 def chained_assignments(rng: random.Random, full: bool):
@@ -293,6 +321,14 @@ def chained_assignments(rng: random.Random, full: bool):
             for t3 in t3s:
                 progs.append((f"chainasg|{t1}|{t2}|{t3}", f"{{ {t1} a = ({t1}) {src_for(t1)}; {t2} b; {t3} c; c = b = a; RyyV = (int64_t) c; ReV = b; }}"))
             progs.append((f"chainreg|{t1}|{t2}", f"{{ {t1} a = ({t1}) {src_for(t1)}; {t2} b; RddV = b = a; }}"))
+    # chains of three and four assignments (every link converts and stores)
+    for t1 in TYPES:
+        for _ in range(len(TYPES) if full else 2):
+            t2, t3, t4 = rng.choice(TYPES), rng.choice(TYPES), rng.choice(TYPES)
+            progs.append((f"chain4|{t1}|{t2}|{t3}|{t4}", f"{{ {t1} a = ({t1}) {src_for(t1)}; {t2} b; {t3} c; {t4} d; d = c = b = a; RyyV = (int64_t) d; ReV = b; RxV = c; }}"))
+    progs.append(("chainregs3", "{ RdV = ReV = RxV = RsV + 1; }"))
+    progs.append(("chainregs4", "{ RddV = ReV = RxV = PeV = RsV; }"))
+    progs.append(("chainregs3if", "{ if (RsV > 0) { ReV = RxV = RyV = RtV; } else { RyV = RxV = ReV = 3; } }"))
     return progs
 
 
